@@ -56,6 +56,14 @@ PROPS = {
                       {"name": "stale-status", "test": "TestC15Stale", "quick_checks": 500, "thorough_checks": 40000, "thorough_shards": 16}]},
     "C16": engine_prop("TestC16", quick=500, thorough=30000),
     "C18": engine_prop("TestC18", quick=1200, thorough=80000),
+    "C19": {"level": "exploration", "assumptions": ["inputs come from mutation grammars around valid packages / images / schemas / status shapes, not arbitrary byte strings for every entry point; panics inside goroutines the target starts itself would abort the process and are reported as inconclusive (exit 2), none observed"],
+            "parts": [
+                {"name": "pipeline", "test": "TestC19Pipeline", "quick_checks": 3000, "thorough_checks": 400000, "thorough_shards": 16},
+                {"name": "oci", "test": "TestC19OCI", "quick_checks": 3000, "thorough_checks": 300000, "thorough_shards": 16},
+                {"name": "config", "test": "TestC19Config", "quick_checks": 5000, "thorough_checks": 500000, "thorough_shards": 16},
+                {"name": "reconcile", "test": "TestC19Reconcile", "quick_checks": 1500, "thorough_checks": 120000, "thorough_shards": 16},
+                {"name": "cli", "test": "TestC19CLI", "quick_checks": 600, "thorough_checks": 40000, "thorough_shards": 16},
+            ]},
     "C11": engine_prop("TestC11"),
     "C01": {
         "level": "exploration",
